@@ -97,6 +97,11 @@ CHECKS = {
          "The real store.LayerManager on memreg (2-3 images x 1-4 layers) driven through build-tagged shims: 18 directed minimal scenarios, seeded sequences (use, release incl. at zero, lookup of diff/blob/info, reads through a held layer, explicit TTL expiry, five fault kinds with recovery, unknown digests), concurrent clients checked with porcupine (counter per key) under the race detector, and store.Mount driven by syscalls (stat/open/read, open(use, O_CREAT), rmdir). Oracle: a lookup succeeds iff the image has a layer with that verified TOC digest and no fault is injected now, never for another digest; counts equal the model and never go negative; a layer in use stays readable across cache expiry; after an image's last release no layer or memo of it remains and the next lookup resolves afresh. Holds on the histories executed.",
          "Trusted: porcupine v1.3.0, gen.Model for content, memreg's request log. Error kinds are not judged.",
          "DESIGN.md section 5 C16"),
+ "C19": ("exploration",
+         "independent recomputation oracle over images converted by containerd's parallel converter in journaled child processes + Go race detector",
+         "Images of 1-16 tiny layers (tar/gzip/zstd/already-converted sources, OCI and Docker media types, repeated layers, manifest or index, dangling writers, retries) in a content/local store are converted with containerd's DefaultIndexConvertFunc (parallel layers, one converter instance per image) using all seven constructors of the repo's estargz / zstd:chunked / external-TOC / lossless converters. Every returned descriptor is recomputed from the committed blob: digest/size, media type vs magic bytes, uncompressed-size annotation and containerd.io/uncompressed label vs the decompressed stream, TOC digest vs an independently located TOC and vs the snapshotter's own mount path, per-layer options reflected in that layer's TOC, lossless DiffID unchanged, TOC image mapping every converted layer to the TOC that verifies it. Race build for the shared converter state; fatal errors are attributed through an on-disk journal. Holds on the conversions executed.",
+         "Trusted: containerd's content/local store and converter driver, std gzip / klauspost zstd, SHA-256, the check's own footer/TOC locator. The four converter tests of the repo need the network and cannot run offline.",
+         "DESIGN.md section 5 C19"),
 }
 
 PENDING_REASON = "check not built yet in this session (work in progress; DESIGN.md section 5 describes the planned runtime monitor)"
